@@ -242,6 +242,8 @@ def call(opname, version, transport, ids, client=None):
     except pie_exc.KmipOperationFailure as e:
         return Outcome('failure', (getattr(e.status, 'value', e.status), getattr(e.reason, 'value', e.reason),
                                    e.message))
+    except _ProxyFailure as e:
+        return Outcome('failure', (e.status, e.reason, e.message))
     except W.exceptions.OperationFailure as e:
         # the generic request path (Set/Modify/DeleteAttribute) raises the core operation-failure error
         return Outcome('failure', (getattr(e.status, 'value', e.status), getattr(e.reason, 'value', e.reason),
@@ -412,6 +414,21 @@ def derived_responses(data):
     yield 'zero-items', msg([])
     yield 'two-items', msg([item, item])
     yield 'count-mismatch', msg([item], 2)
+    # a success whose repeated payload fields come in the opposite order: lists are ordered data
+    # (a server's order of preference, newest-first results, ...), the client must report them as sent
+    pl = ttlv.find(item, T.RESPONSE_PAYLOAD.value)
+    if pl is not None and pl[1] == ttlv.STRUCTURE:
+        tags = [c[0] for c in pl[2]]
+        rep = [t for t in set(tags) if tags.count(t) >= 2]
+        if rep:
+            rev = {t: [c for c in pl[2] if c[0] == t][::-1] for t in rep}
+            new_kids = []
+            for c in pl[2]:
+                new_kids.append(rev[c[0]].pop(0) if c[0] in rev else c)
+            if new_kids != pl[2]:
+                npl = (pl[0], pl[1], new_kids)
+                yield 'success-reversed-lists', msg([(item[0], item[1],
+                                                      [npl if c is pl else c for c in item[2]])])
     # success without payload / payload of another operation
     kids = [c for c in item[2] if c[0] != T.RESPONSE_PAYLOAD.value]
     yield 'success-no-payload', msg([(item[0], item[1], kids)])
@@ -520,6 +537,58 @@ OPS.update({
     'locate_named': (lambda c, i: c.locate(attributes=[W.attr(W.AT.NAME, 'k')]),
                      OPS['locate'][1], OPS['locate'][2]),
     'locate_max': (lambda c, i: c.locate(maximum_items=2), OPS['locate'][1], OPS['locate'][2]),
+})
+
+
+# operations that only the lower-level client (KMIPProxy) offers: they RETURN a result object carrying
+# the status instead of raising; the adapter turns a non-success result into the same failure outcome
+def _raw(x):
+    while hasattr(x, 'value'):
+        x = x.value
+    return x
+
+
+class _ProxyFailure(Exception):
+    def __init__(self, res):
+        Exception.__init__(self, 'proxy failure')
+        self.status = _raw(res.result_status)
+        self.reason = _raw(res.result_reason)
+        self.message = _raw(res.result_message)
+
+
+def _px(res, getter):
+    if _raw(res.result_status) != RS.SUCCESS.value:
+        raise _ProxyFailure(res)
+    return getter(res)
+
+
+def _pv_list(p):
+    return [(_tv(c, T.PROTOCOL_VERSION_MAJOR), _tv(c, T.PROTOCOL_VERSION_MINOR))
+            for c in (p[2] if p else []) if c[0] == T.PROTOCOL_VERSION.value]
+
+
+def _enum_list(p, tag):
+    return [c[2] for c in (p[2] if p else []) if c[0] == tag.value]
+
+
+OPS.update({
+    'proxy_discover_versions': (
+        lambda c, i: _px(c.proxy.discover_versions(), lambda r: [(v.major, v.minor) for v in r.protocol_versions]),
+        _pv_list, lambda r: list(r)),
+    'proxy_discover_some': (
+        lambda c, i: _px(c.proxy.discover_versions(protocol_versions=[
+            W.contents.ProtocolVersion(1, 1), W.contents.ProtocolVersion(2, 0), W.contents.ProtocolVersion(1, 3)]),
+            lambda r: [(v.major, v.minor) for v in r.protocol_versions]),
+        _pv_list, lambda r: list(r)),
+    'proxy_query': (
+        lambda c, i: _px(c.proxy.query(query_functions=[
+            W.payloads.QueryRequestPayload and E.QueryFunction.QUERY_OPERATIONS, E.QueryFunction.QUERY_OBJECTS,
+            E.QueryFunction.QUERY_SERVER_INFORMATION]),
+            lambda r: ([getattr(o, 'value', o) for o in (r.operations or [])],
+                       [getattr(o, 'value', o) for o in (r.object_types or [])],
+                       getattr(r.vendor_identification, 'value', r.vendor_identification))),
+        lambda p: (_enum_list(p, T.OPERATION), _enum_list(p, T.OBJECT_TYPE), _tv(p, T.VENDOR_IDENTIFICATION)),
+        lambda r: (list(r[0]), list(r[1]), r[2])),
 })
 
 
